@@ -1073,15 +1073,20 @@ def deserKey : Nat → Cfg → (Ty ⊕ Unit) → List Ev → Bool → Except DEr
     let c := Cur.replay events 0 none
     let location := c.refLoc
     let fix (e : DErr) : DErr := if e.loc == 0 && e.kind != "AliasError" then { e with loc := location } else e
+    -- `expect_consumed`: the recorded key must be used up by the value built from it
+    let consumed (c' : Cur) (v : Val) : Except DErr Val :=
+      match c'.peek with
+      | .ok (some ev) _ => .error ⟨"Unexpected", ev.loc, 0⟩
+      | _ => .ok v
     match kseed with
     | .inl kt =>
       match deser fuel cfg kt true kemn c with
       | .err e _ => .error (fix e)
-      | .ok v _ => .ok v
+      | .ok v c' => consumed c' v
     | .inr () =>
       match deserStr c with
       | .err e _ => .error (fix e)
-      | .ok s _ => .ok (.str s)
+      | .ok s c' => consumed c' (.str s)
 
 /-- `MA::next_value_seed` -/
 def nextValue : Nat → Cfg → Ty → Cur → MA → R (Val × MA)
@@ -1098,7 +1103,11 @@ def nextValue : Nat → Cfg → Ty → Cur → MA → R (Val × MA)
         | none => 0
       match deser fuel cfg vt false false rc with
       | .err e _ => .err (attachAlias e ref defined) c
-      | .ok v _ => .ok (v, m) c
+      | .ok v rc' =>
+        -- `expect_consumed`: the recorded (merged / buffered) value must be used up
+        match rc'.peek with
+        | .ok (some ev) _ => .err ⟨"Unexpected", ev.loc, 0⟩ c
+        | _ => .ok (v, m) c
     | none =>
       match c.peek with
       | .err e c => .err e c
